@@ -77,6 +77,13 @@ def execute_variant(args):
                     obj.remove_edge(_api_edge(b, kind, c[1]))
                 elif c[0] == "add_node":
                     obj.add_node(b.lab(c[1]))
+                elif c[0] == "set_weight":
+                    obj.set_weight(_api_edge(b, kind, c[1]), c[2])
+                elif c[0] == "measure":       # history of the object: the census is taken now (result ignored) and again at the end
+                    try:
+                        _census(kind, obj, k)
+                    except Exception:
+                        pass
                 else:
                     raise ValueError(c[0])
     except Exception as ex:                       # the container failed, not the census: no verdict for C11
@@ -89,12 +96,7 @@ def execute_variant(args):
         return out
     try:
         with quiet():
-            if kind == "hg":
-                from hypergraphx.motifs.motifs import compute_motifs
-                obs = compute_motifs(obj, order=k, runs_config_model=0)["observed"]
-            else:
-                from hypergraphx.motifs.directed_motifs import compute_directed_motifs
-                obs = compute_directed_motifs(obj, order=k, runs_config_model=0)["observed"]
+            obs = _census(kind, obj, k)
     except Exception as ex:
         out["err"] = "census:%s:%s" % (type(ex).__name__, ex)
         return out
@@ -108,6 +110,14 @@ def execute_variant(args):
     except Exception as ex:
         out["malformed"] = "%s: %r" % (ex, obs if len(repr(obs)) < 400 else repr(obs)[:400])
     return out
+
+
+def _census(kind, obj, k):
+    if kind == "hg":
+        from hypergraphx.motifs.motifs import compute_motifs
+        return compute_motifs(obj, order=k, runs_config_model=0)["observed"]
+    from hypergraphx.motifs.directed_motifs import compute_directed_motifs
+    return compute_directed_motifs(obj, order=k, runs_config_model=0)["observed"]
 
 
 def _int(x):
@@ -208,6 +218,84 @@ def make_case(kind, k, n, edges, rng, fam, tags, origin):
                 calls.insert(rng.randint(0, len(calls)), ["add_node", x])
             vs.append({"tag": t, "labels": FAMILIES[fam2][:MAXN], "weighted": False, "calls": calls, "seed": rng.randrange(1 << 30)})
     return {"kind": kind, "k": k, "n": n, "edges": edges, "variants": vs, "origin": origin}
+
+
+# ---- histories of ONE object -----------------------------------------------------------------
+# The calls of a variant are rewritten so that they END in the same hypergraph as before, but pass through another one on
+# which the census is taken (same order, same arguments, result ignored): k of the final hyperedges are replaced by k others
+# over the same nodes while the object is built, the census is called, then the k others are removed and the k true ones added
+# in place (weighted: a weight is changed too).  The numbers of nodes and of hyperedges are the same before and after the
+# edit and nothing is computed in between; the census that is judged is the second one, on the object as it is at the end.
+HISTORY_SHARE = 0.2
+
+
+def _tup(kind, e):
+    return (tuple(e[0]), tuple(e[1])) if kind == "dir" else tuple(e)
+
+
+def add_history(kind, k, v, hr):
+    """rewrite v['calls'] in place; returns True when the variant got a history"""
+    calls = v["calls"]
+    present, seen = [], set()
+    for c in calls:                                       # the final content and every hyperedge ever mentioned
+        es = [c[1]] if c[0] in ("add", "remove") else (c[1] if c[0] == "add_batch" else [])
+        for e in es:
+            e = _tup(kind, e)
+            seen.add(e)
+            if c[0] == "remove":
+                present.remove(e)
+            elif e not in present:
+                present.append(e)
+    small = [e for e in present if 2 <= len(node_set(kind, e)) <= k]
+    if not small:
+        return False
+    used = sorted(set().union(*[node_set(kind, e) for e in present]))
+    out = hr.sample(small, hr.randint(1, min(2, len(small))))
+    subs = {}
+    for e in out:
+        for _ in range(20):
+            z = hr.randint(2, min(k, len(used)))
+            o = random_edge(kind, hr, used, z)
+            if o not in seen and o not in subs.values():
+                subs[e] = o
+                break
+        else:
+            return False
+    first = []
+    for c in calls:
+        if c[0] == "add" and _tup(kind, c[1]) in subs:
+            first.append(["add", subs[_tup(kind, c[1])], c[2]])
+        elif c[0] == "add_batch":
+            first.append(["add_batch", [subs.get(_tup(kind, e), e) for e in c[1]], c[2]])
+        else:
+            first.append(c)
+    w_of = {}
+    for c in calls:
+        if c[0] == "add":
+            w_of[_tup(kind, c[1])] = c[2]
+        elif c[0] == "add_batch":
+            w_of.update({_tup(kind, e): w for e, w in zip(c[1], c[2])})
+    before = [subs.get(e, e) for e in present]
+    covered = set().union(*[node_set(kind, e) for e in before])
+    first += [["add_node", x] for x in used if x not in covered]     # the edit must not change the number of nodes
+    edit = [["remove", subs[e]] for e in out] + [["add", e, w_of[e]] for e in out]
+    hr.shuffle(edit)
+    edit.sort(key=lambda c: c[0] != "remove")             # removals first: a substitute is never equal to a true hyperedge anyway
+    kept = [e for e in present if e not in out]
+    if v["weighted"] and kept:
+        edit.append(["set_weight", hr.choice(kept), hr.choice([2, 3, 4])])
+    v["calls"] = first + [["measure"]] + edit
+    v["history"] = {"held_when_first_measured": before, "then_removed": [subs[e] for e in out], "then_added": list(out)}
+    return True
+
+
+def add_histories(specs, hr):
+    n = 0
+    for s in specs:
+        for v in s["variants"]:
+            if hr.random() < HISTORY_SHARE and add_history(s["kind"], s["k"], v, hr):
+                n += 1
+    return n
 
 
 EU4 = [c for z in (2, 3, 4) for c in itertools.combinations(range(1, 5), z)]          # 11 hyperedges of size >= 2
@@ -464,6 +552,8 @@ def describe(spec, i=None):
     if i:
         v = spec["variants"][i - 1]
         d["variant"] = {"tag": v["tag"], "labels": v["labels"], "extra": v.get("extra", []), "weighted": v["weighted"]}
+        if v.get("history"):
+            d["variant"]["history_of_the_object"] = dict(v["history"], census_taken_before_the_in_place_edit_with_the_same_arguments=True)
     return d
 
 
@@ -502,7 +592,7 @@ def judge(res, specs, logs, verdicts):
                 if not mine:
                     continue
                 if i == 0:
-                    tags = [x["tag"] for x in s["variants"]]
+                    tags = [x["tag"] + ("+history" if x.get("history") else "") for x in s["variants"]]
                     what = ("%s census of order %d differs between variants %s of one hypergraph (same hyperedges of size <= %d): %s"
                             % (kind, s["k"], tags, s["k"], describe(s)))
                     shown = [nonzero(l["obs"]) for l in lg]
@@ -552,6 +642,7 @@ def run(tier, seed):
     specs = hg_inputs(tier, rng) + dir_inputs(tier, rng)
     # later families draw from their own generators: the inputs above stay what they were for a given seed
     specs += nested_inputs(tier, random.Random(seed * 7919 + 11)) + dir_twin_inputs(tier, random.Random(seed * 7919 + 12))
+    nhist = add_histories(specs, random.Random(seed * 7919 + 13))
 
     # design exploration (two TLC runs side by side) runs beside the execution of the real code
     box = {}
@@ -590,7 +681,7 @@ def run(tier, seed):
 
     nvar = sum(len(s["variants"]) for s in specs)
     res.cov(traces_validated_against_impl=sum(len(v[0]) for v in verdicts.values()),
-            census_calls=nvar,
+            census_calls=nvar + nhist, objects_measured_again_after_in_place_edit=nhist,
             validator_states=sum(v[1]["states"] for v in verdicts.values()),
             undirected_cases=sum(1 for s in specs if s["kind"] == "hg"),
             directed_cases=sum(1 for s in specs if s["kind"] == "dir"),
@@ -620,6 +711,9 @@ def run(tier, seed):
                "isomorphism class of the 2^15 hypergraphs on 5 nodes with hyperedges of 3 and 4 nodes, under a random label permutation",
                "look-alike: ONE directed hypergraph holding two (order 3: three) NON-isomorphic patterns on disjoint node sets that agree in "
                "simple invariants (per-node incidence profile; or hyperedge shapes and degree sequence), built in both insertion orders",
+               "history of the OBJECT: about a fifth of the variants are built through another hypergraph (k of the hyperedges replaced by k others "
+               "over the same nodes) on which the census is taken with the same arguments (result ignored), and are then edited in place into the "
+               "hypergraph of the case (numbers of nodes and hyperedges unchanged, weighted ones also set_weight); the census judged is the second one",
                "for directed hypergraphs only what the statement promises is verdict-bearing (canonical representative, "
                "each class once, invariance under labels / history / larger hyperedges, count <= number of node sets "
                "showing the pattern); equality with the enumeration the anchors describe is reported as information")
